@@ -379,6 +379,61 @@ def run_mutate(env, sh):
         env.opaque_decryption(False)
 
 
+# ---- grammar-based ECC key files: valid DER structure, every length of the variable parts, symbolic leaves
+
+_OID_EC = bytes.fromhex("06072a8648ce3d0201")
+_OID_CURVE = {'P-256': bytes.fromhex("06082a8648ce3d030107"), 'P-384': bytes.fromhex("06052b81040022"), 'P-521': bytes.fromhex("06052b81040023")}
+_OID_ED = {'Ed25519': bytes.fromhex("06032b6570"), 'Ed448': bytes.fromhex("06032b6571"), 'Curve25519': bytes.fromhex("06032b656e"),
+           'Curve448': bytes.fromhex("06032b656f")}
+
+
+def _tlv(P, tag, *parts):
+    body = P.concat(*parts) if parts else P.const(b"")
+    return P.concat(bytes([tag]) + ref_len(len(body)), body)
+
+
+def run_struct_import(env, sh):
+    """ECC.import_key on well-formed DER whose variable parts (EC point, private scalar, raw key) have every
+    length around the expected one and symbolic content: a key or ValueError, never another exception"""
+    from Crypto.PublicKey import ECC
+    P = env.P
+    kind, curve = sh['kind'], sh['curve']
+    pt = env.bytes('point', sh.get('plen', 0))
+    if sh.get('first') is not None and sh.get('plen', 0) > 0:
+        pt = P.concat(bytes([sh['first']]), pt[1:])
+    d = env.bytes('d', sh.get('dlen', 0))
+    if kind == 'spki':
+        alg = _tlv(P, 0x30, _OID_EC, _OID_CURVE[curve])
+        blob = _tlv(P, 0x30, alg, _tlv(P, 0x03, b"\x00", pt))
+    elif kind in ('sec1', 'pkcs8'):
+        parts = [bytes.fromhex("020101"), _tlv(P, 0x04, d)]
+        if kind == 'sec1' and sh.get('params', True):
+            parts.append(_tlv(P, 0xA0, _OID_CURVE[curve]))
+        if sh.get('pub', True):
+            parts.append(_tlv(P, 0xA1, _tlv(P, 0x03, b"\x00", pt)))
+        inner = _tlv(P, 0x30, *parts)
+        if kind == 'sec1':
+            blob = inner
+        else:
+            blob = _tlv(P, 0x30, bytes.fromhex("020100"), _tlv(P, 0x30, _OID_EC, _OID_CURVE[curve]), _tlv(P, 0x04, inner))
+    elif kind == 'xspki':
+        blob = _tlv(P, 0x30, _tlv(P, 0x30, _OID_ED[curve]), _tlv(P, 0x03, b"\x00", pt))
+    elif kind == 'xpkcs8':
+        blob = _tlv(P, 0x30, bytes.fromhex("020100"), _tlv(P, 0x30, _OID_ED[curve]), _tlv(P, 0x04, _tlv(P, 0x04, d)))
+    else:
+        raise KeyError(kind)
+    env.concrete_rng(11)       # curve set-up and scalar blinding draw from the default RNG: fixed stream
+    try:
+        ECC.import_key(blob)
+        env.check(True, 'accepted')
+    except ValueError:
+        env.check(True, 'documented exception')
+    except Exception as e:      # noqa: BLE001
+        env.check(False, 'ECC.import_key raises only ValueError on well-formed DER with odd part lengths (got %s)' % type(e).__name__)
+    finally:
+        env.concrete_rng(None)
+
+
 HARNESSES = dict(
     mutate=Harness('mutate', run_mutate, max_paths=3000, concretize_cap=300),
     der_decode=Harness('der_decode', run_der_decode, max_paths=20000),
@@ -389,6 +444,7 @@ HARNESSES = dict(
     l2b=Harness('l2b', run_l2b), b2l=Harness('b2l', run_b2l),
     import_key=Harness('import_key', run_import, max_paths=20000),
     pkcs8_unwrap=Harness('pkcs8_unwrap', run_pkcs8_unwrap, max_paths=20000),
+    struct_import=Harness('struct_import', run_struct_import, max_paths=20000),
 )
 
 
@@ -434,6 +490,28 @@ def shapes(tier):
     for n in range(0, (6 if th else 4) + 1):
         jobs.append(('pkcs8_unwrap', dict(n=n)))
         jobs.append(('pkcs8_unwrap', dict(n=n, passphrase='x')))
+    # grammar-based ECC files
+    for curve, n in (('P-256', 32), ('P-521', 66)) if not th else (('P-256', 32), ('P-384', 48), ('P-521', 66)):
+        plens = (0, 1, 2, n, n + 1, 2 * n, 2 * n + 1, 2 * n + 2)
+        for plen in plens:
+            firsts = (None,) if plen == 0 else ((None, 4, 2) if th else (None, 4))
+            for first in firsts:
+                if plen == n + 1 and first != 4:
+                    continue        # compressed points: decompression needs a modular square root of a symbolic value (outside)
+                jobs.append(('struct_import', dict(kind='spki', curve=curve, plen=plen, first=first)))
+        for kind in ('sec1', 'pkcs8'):
+            for dlen in (0, 1, n - 1, n, n + 1):
+                jobs.append(('struct_import', dict(kind=kind, curve=curve, dlen=dlen, plen=2 * n + 1, first=4)))
+                jobs.append(('struct_import', dict(kind=kind, curve=curve, dlen=dlen, pub=False)))
+            for plen in (0, 1, 2 * n, 2 * n + 1):
+                jobs.append(('struct_import', dict(kind=kind, curve=curve, dlen=n, plen=plen, first=(4 if plen else None))))
+            if kind == 'sec1':
+                jobs.append(('struct_import', dict(kind=kind, curve=curve, dlen=n, plen=2 * n + 1, first=4, params=False)))
+    for curve, n in (('Ed25519', 32), ('Ed448', 57), ('Curve25519', 32), ('Curve448', 56)):
+        for ln in (0, 1, n - 1, n, n + 1):
+            if not (curve.startswith('Ed') and ln == n):        # EdDSA point decompression: modular square root (outside)
+                jobs.append(('struct_import', dict(kind='xspki', curve=curve, plen=ln)))
+            jobs.append(('struct_import', dict(kind='xpkcs8', curve=curve, dlen=ln)))
     for name in sorted(TEMPLATES):
         if name.startswith(('ecc', 'ed25519', 'x25519')) or 'scrypt' in name:
             continue        # need the EC / scrypt native models (added with C06 / C12)
